@@ -319,8 +319,73 @@ fn ownership_precondition(ctx: &mut Ctx) {
     assert_send::<w::ClientEncrypterHalf>(); assert_send::<w::ClientDecrypterHalf>(); assert_send::<w::ServerEncrypterHalf>(); assert_send::<w::ServerDecrypterHalf>();
 }
 
+/// "split and unsplit lose nothing" also after a transport fault: the same sequence of Write-based header calls,
+/// some of them to a writer that refuses, through the combined object and through a half split off an identical
+/// object must put the same bytes on the wire and report the same results
+fn failed_write_histories(ctx: &mut Ctx) {
+    struct Refuse;
+    impl std::io::Write for Refuse {
+        fn write(&mut self, _b: &[u8]) -> std::io::Result<usize> { Err(std::io::Error::new(std::io::ErrorKind::BrokenPipe, "refused")) }
+        fn flush(&mut self) -> std::io::Result<()> { Ok(()) }
+    }
+    let mut rng = ctx.rng("failed_writes");
+    let n = if ctx.quick() { 200 } else { 4000 };
+    for k in 0..n {
+        let key: [u8; 40] = rng.arr();
+        let machine = (k % 4) as u8;                    // 0 vanilla, 1 tbc, 2 wrath client, 3 wrath server
+        let items = 2 + rng.range(0, 10) as usize;
+        let script: Vec<(bool, u32, u32, bool)> = (0..items).map(|i| (rng.chance(1, 2), rng.range(0, 0x7FFFFF) as u32, rng.next() as u32, i > 0 && rng.chance(1, 3))).collect();
+        let sc = script.clone();
+        let r = catch(move || {
+            let (mut wa, mut wb): (Vec<u8>, Vec<u8>) = (Vec::new(), Vec::new());
+            let (mut ra, mut rb): (Vec<bool>, Vec<bool>) = (Vec::new(), Vec::new());
+            match machine {
+                0 => { let mut c = v_crypto(key); let (mut e, _) = v_crypto(key).split();
+                       for (srv, s, o, refuse) in sc.iter() {
+                           let (x, y) = match (srv, refuse) {
+                               (true, false) => (c.write_encrypted_server_header(&mut wa, *s as u16, *o as u16), e.write_encrypted_server_header(&mut wb, *s as u16, *o as u16)),
+                               (true, true) => (c.write_encrypted_server_header(&mut Refuse, *s as u16, *o as u16), e.write_encrypted_server_header(&mut Refuse, *s as u16, *o as u16)),
+                               (false, false) => (c.write_encrypted_client_header(&mut wa, *s as u16, *o), e.write_encrypted_client_header(&mut wb, *s as u16, *o)),
+                               (false, true) => (c.write_encrypted_client_header(&mut Refuse, *s as u16, *o), e.write_encrypted_client_header(&mut Refuse, *s as u16, *o)),
+                           }; ra.push(x.is_ok()); rb.push(y.is_ok()); } }
+                1 => { let mut c = t_crypto(key); let (mut e, _) = t_crypto(key).split();
+                       for (srv, s, o, refuse) in sc.iter() {
+                           let (x, y) = match (srv, refuse) {
+                               (true, false) => (c.write_encrypted_server_header(&mut wa, *s as u16, *o as u16), e.write_encrypted_server_header(&mut wb, *s as u16, *o as u16)),
+                               (true, true) => (c.write_encrypted_server_header(&mut Refuse, *s as u16, *o as u16), e.write_encrypted_server_header(&mut Refuse, *s as u16, *o as u16)),
+                               (false, false) => (c.write_encrypted_client_header(&mut wa, *s as u16, *o), e.write_encrypted_client_header(&mut wb, *s as u16, *o)),
+                               (false, true) => (c.write_encrypted_client_header(&mut Refuse, *s as u16, *o), e.write_encrypted_client_header(&mut Refuse, *s as u16, *o)),
+                           }; ra.push(x.is_ok()); rb.push(y.is_ok()); } }
+                2 => { let mut c = w_client(key); let (mut e, _) = w_client(key).split();
+                       for (_, s, o, refuse) in sc.iter() {
+                           let (x, y) = if *refuse { (c.write_encrypted_client_header(&mut Refuse, *s as u16, *o), e.write_encrypted_client_header(&mut Refuse, *s as u16, *o)) }
+                                        else { (c.write_encrypted_client_header(&mut wa, *s as u16, *o), e.write_encrypted_client_header(&mut wb, *s as u16, *o)) };
+                           ra.push(x.is_ok()); rb.push(y.is_ok()); } }
+                _ => { let mut c = w_server(key); let (mut e, _) = w_server(key).split();
+                       for (_, s, o, refuse) in sc.iter() {
+                           let (x, y) = if *refuse { (c.write_encrypted_server_header(&mut Refuse, *s, *o as u16), e.write_encrypted_server_header(&mut Refuse, *s, *o as u16)) }
+                                        else { (c.write_encrypted_server_header(&mut wa, *s, *o as u16), e.write_encrypted_server_header(&mut wb, *s, *o as u16)) };
+                           ra.push(x.is_ok()); rb.push(y.is_ok()); } }
+            }
+            (wa, wb, ra, rb)
+        });
+        ctx.oracle_runs += 1;
+        let sj: Vec<String> = script.iter().map(|(srv, s, o, rf)| format!("{{\"{}\":[{},{}],\"writer_refuses\":{}}}", if *srv { "server_header" } else { "client_header" }, s, o, rf)).collect();
+        let det = |what: &str| format!("{{\"what\":\"{}\",\"machine\":{},\"key\":\"{}\",\"script\":[{}]}}", what, machine, hex(&key), sj.join(","));
+        match r {
+            None => ctx.fail("panic", det("panic while writing headers to a writer that sometimes refuses")),
+            Some((wa, wb, ra, rb)) => {
+                if ra != rb { ctx.fail("split_failed_write", det("combined object and split half report different results for the same writes")); }
+                else if wa != wb { ctx.fail("split_failed_write", det("after a refused write the combined object and a half split off an identical object put different bytes on the wire")); }
+            }
+        }
+    }
+    ctx.count("oracle:failed-write histories, combined vs split");
+}
+
 pub fn run(ctx: &mut Ctx) {
     histories(ctx);
+    failed_write_histories(ctx);
     unsplit_cases(ctx);
     threads(ctx);
     ownership_precondition(ctx);
